@@ -33,6 +33,11 @@ target_link_libraries(vh_glue PUBLIC ${VH_LINK_LIBS})
 add_library(vh_engine STATIC EXCLUDE_FROM_ALL ${VH_DIR}/engine/driver.cpp)
 target_include_directories(vh_engine PUBLIC ${VH_REPO}/src ${CMAKE_BINARY_DIR}/src ${VH_DIR})
 target_link_libraries(vh_engine PUBLIC vh_glue ${VH_LINK_LIBS})
+if(VH_FUZZ_BUILD)
+  # fz tree: the driver provides LLVMFuzzerTestOneInput instead of main(); libFuzzer's runtime supplies main()
+  target_compile_definitions(vh_engine PRIVATE VH_LIBFUZZER)
+  target_link_libraries(vh_engine PUBLIC ${VH_FUZZ_RT})
+endif()
 
 # kits: shared simulation substrate (ChainSim, RefLedger, ...)
 file(GLOB VH_KIT_SRCS CONFIGURE_DEPENDS ${VH_DIR}/kits/*.cpp)
